@@ -1,4 +1,5 @@
 import Jose.Fmt
+import Jose.Grid.C19
 /-
   C19 — `jose fmt` executes its option string as the documented stack machine.
   Statements about the model Jose/Fmt.lean (mirror of jcmd_fmt and the cmd_* helpers).
@@ -169,5 +170,15 @@ theorem push_pop (st st' : State) (v : Json) (s : String) :
 /-- non-vacuity: the manual's "build a JWE template" example, which relies on aliasing -/
 example : (run [.json (.obj []), .copy, .set "unprotected", .quote "A128KW", .set "alg", .unwind, .unwind, .output "-"]).1.out
     = [("-", "{\"unprotected\":{\"alg\":\"A128KW\"}}")] := by decide
+
+
+/-! ### the model is the code, on a grid regenerated from the code on every run
+
+  `Jose/Grid/C19.lean` is rewritten by the translator (tools/extract_tables.py) on every run: it holds what
+  the `jose fmt` **built from the current working tree** did (exit status, standard output, files) on a
+  fixed grid — `jose fmt` option programs: every option with every argument of the check's small alphabet after each of seven stack prefixes, and every pair of 30 options after a prefix with an aliased child on the stack, each followed by `-o-` (rows whose failing option is an output option are left out: it has already written part of a circular value).
+  The theorem is checked by the kernel (`decide +kernel`: evaluation of the stack-machine model, no axiom). -/
+theorem model_is_code_on_grid : Jose.Grid.C19.chunks.all (fun c => c.all Jose.Driver.agrees) = true := by
+  decide +kernel
 
 end Jose.Props.C19
